@@ -5,7 +5,7 @@ import LenaModel.Model.C07
 a dictionary is the array of its slots over the case's sorted key alphabet, `null` = key absent.
 Requests (`n` = size of the alphabet, `falsy` = leaf classes that are false in boolean context):
   {"op":"pair","n":n,"a":D,"b":D,"levels":[..],"falsy":[..]}
-      -> {"r":[{"iab":D,"iba":D,"dab":D,"rec":D,"cab":b,"cba":b,"ciab_a":b,"ciab_b":b}, … per level],"upd":D}
+      -> {"r":[{"iab":D,"iba":D,"dab":D,"dspec":D,"rec":D,"cab":b,"cba":b,"ciab_a":b,"ciab_b":b}, … per level],"upd":D}
   {"op":"inter","n":n,"level":l,"ds":[V,..]}       -> {"r":D} | {"e":"LenaTypeError"}
   {"op":"diffv","level":l,"a":V,"b":V,"falsy":[..]} -> {"r":V}
   {"op":"update","d":V,"other":V}                  -> {"r":D} | {"e":"LenaTypeError"}
@@ -65,7 +65,7 @@ def pairAt (truthy : Int → Bool) (n : Nat) (a b : Slots Int) (lv : Int) : Json
   let dab := difference truthy lv a b
   Json.mkObj [
     ("iab", ofDict iab), ("iba", ofDict (interN n lv [b, a])),
-    ("dab", ofDict dab), ("rec", ofDict (updL iab dab)),
+    ("dab", ofDict dab), ("dspec", ofDict (diffSpec lv a b)), ("rec", ofDict (updL iab dab)),
     ("cab", Json.bool (contained lv a b)), ("cba", Json.bool (contained lv b a)),
     ("ciab_a", Json.bool (contained lv iab a)), ("ciab_b", Json.bool (contained lv iab b))]
 
